@@ -558,6 +558,84 @@ pub fn c15(tier: Tier) -> ! {
         }
     }
     run.set("placement_lists_read_across_an_edit", partial);
+    // however the list is consumed (one by one, folded, counted from the back), it is the same list;
+    // sites on and next to the cell faces
+    let mut consumed = 0u64;
+    for g in GROUP_NAMES.iter() {
+        if let AnyState::Poly(st) = AnyState::from_group(g, &ShapeSpec::Polygon(3)) {
+            let nb = st.generate_basis().len();
+            for &(x, y) in [(-0.5, 0.1), (0.5, -0.5), (0.1, -0.5), (0.25, 0.5), (0.13, 0.21)].iter() {
+                {
+                    let mut b = st.generate_basis();
+                    b[nb - 3].set_value(x);
+                    b[nb - 2].set_value(y);
+                }
+                consumed += 1;
+                let mut one_by_one: Vec<Aff> = vec![];
+                let mut it = st.relative_positions();
+                while let Some(t) = it.next() {
+                    one_by_one.push(Aff::from_t2(&t));
+                }
+                let folded: Vec<Aff> = st.relative_positions().fold(vec![], |mut v, t| {
+                    v.push(Aff::from_t2(&t));
+                    v
+                });
+                let mut each: Vec<Aff> = vec![];
+                st.relative_positions().for_each(|t| each.push(Aff::from_t2(&t)));
+                let last = st.relative_positions().last().map(|t| Aff::from_t2(&t));
+                let same = |a: &Vec<Aff>, b: &Vec<Aff>| a.len() == b.len() && a.iter().zip(b.iter()).all(|(p, q)| p.m == q.m && p.t[0].to_bits() == q.t[0].to_bits() && p.t[1].to_bits() == q.t[1].to_bits());
+                let last_ok = match (&last, one_by_one.last()) {
+                    (Some(a), Some(b)) => a.m == b.m && a.t == b.t,
+                    (None, None) => true,
+                    _ => false,
+                };
+                if !same(&one_by_one, &folded) || !same(&one_by_one, &each) || !last_ok || st.relative_positions().count() != one_by_one.len() {
+                    run.fail(None, &format!("{}: the placements of site ({}, {}) differ with the way the list is consumed (one by one, fold, for_each, last, count)", g, x, y), json!({"engine": "consumption", "group": g, "x": x, "y": y}));
+                }
+            }
+        }
+    }
+    run.set("placement_lists_consumed_in_five_ways", consumed);
+    // groups described by operation strings in a setting with quarter and third translations
+    let mut quarter = 0u64;
+    {
+        use packing::wallpaper::WallpaperGroup;
+        use packing::{CrystalFamily, LineShape, PackedState};
+        let op = |a: f64, b: f64, c: f64, d: f64, tx: f64, ty: f64| Aff { m: [[a, b], [c, d]], t: [tx, ty] };
+        for (name, strs, ops) in [
+            ("p2 with the origin off the two-fold axis", vec!["x,y", "-x+1/4,-y"], vec![op(1., 0., 0., 1., 0., 0.), op(-1., 0., 0., -1., 0.25, 0.)]),
+            ("a glide by a third", vec!["x,y", "x+1/3,-y"], vec![op(1., 0., 0., 1., 0., 0.), op(1., 0., 0., -1., 1. / 3., 0.)]),
+            ("p2 with the origin at (1/8, 3/8)", vec!["x,y", "-x+1/4,-y+3/4"], vec![op(1., 0., 0., 1., 0., 0.), op(-1., 0., 0., -1., 0.25, 0.75)]),
+        ]
+        .iter()
+        {
+            let wg = WallpaperGroup { name, family: CrystalFamily::Monoclinic, wyckoff_str: strs.clone() };
+            if let Ok(st) = PackedState::from_group(LineShape::polygon(3).unwrap(), &wg) {
+                let nb = st.generate_basis().len();
+                for &(x, y, phi) in [(0.1, 0.2, 0.), (-0.37, 0.44, 1.1)].iter() {
+                    {
+                        let mut b = st.generate_basis();
+                        b[nb - 3].set_value(x);
+                        b[nb - 2].set_value(y);
+                        b[nb - 1].set_value(phi);
+                    }
+                    quarter += 1;
+                    let pl: Vec<Aff> = st.relative_positions().map(|t| Aff::from_t2(&t)).collect();
+                    let rot = Aff::rot_trans(phi, [0., 0.]);
+                    let ok = pl.len() == ops.len()
+                        && pl.iter().zip(ops.iter()).all(|(a, o)| {
+                            let want = o.apply([x, y]);
+                            let lin = o.after(&rot);
+                            (0..2).all(|r| (0..2).all(|c| (a.m[r][c] - lin.m[r][c]).abs() <= 1e-15)) && dist_to_int(a.t[0] - want[0]) <= 1e-12 && dist_to_int(a.t[1] - want[1]) <= 1e-12
+                        });
+                    if !ok {
+                        run.fail(None, &format!("{} ({:?}): site ({}, {}, {}) does not yield the operations applied to the site", name, strs, x, y, phi), json!({"engine": "strings", "operations": strs, "x": x, "y": y, "phi": phi}));
+                    }
+                }
+            }
+        }
+    }
+    run.set("sites_of_groups_given_as_strings_with_quarter_translations", quarter);
     run.set("live_object_edits_compared", live_checks);
     run.set("evaluations", evals + live_checks);
     run.set("distinct_nontrivial", evals);
